@@ -580,10 +580,10 @@ def run(ctx):
         if a is None or b is None:
             continue
         da, db = rc.parse_obs(a), rc.parse_obs(b)
-        if any(da.get(k) != db.get(k) for k in keys) or any(f in db for f in ('ORACLE-MISS', 'FLAG-MISMATCH', 'BADSPAN')):
+        if any(da.get(k) != db.get(k) for k in keys) or any(f in db for f in ('ORACLE-MISS', 'FLAG-MISMATCH', 'MATCHER-NOT-OK')):
             res.disagree({'what': 'dir_context / dir_match / dir_reorder: model and implementation differ', 'input': [r],
                           'implementation': {k: da.get(k) for k in keys}, 'model': {k: db.get(k) for k in keys},
-                          'flags': [f for f in ('ORACLE-MISS', 'FLAG-MISMATCH', 'BADSPAN') if f in db]})
+                          'flags': [f for f in ('ORACLE-MISS', 'FLAG-MISMATCH', 'MATCHER-NOT-OK') if f in db]})
     vreqs = reqs[:len(cases)]
     sub = vreqs[::2] if ctx.quick else vreqs
     aobs, _m, _q, aerrs = rc.run_ren(probe_asan, None, sub)
